@@ -209,11 +209,14 @@ def run_programs(progs, tier, emphasis="deps", faults=None, extra_spec=None, npr
             for k, (pname, script) in enumerate(behs):
                 if pname in byname:
                     specs.append(psrun.make_spec(byname[pname], sem[pname], {"kind": "script", "script": script},
-                                                 name="%s#m%s%d" % (pname, cfg, k)))
+                                                 name="%s#m%s%d" % (pname, cfg, k), early_defs=True))
                     nsim += 1
     for p in progs:
         for k, sc in enumerate(schedules_for(p, sem[p["name"]], tier, rng, emphasis)):
             s = psrun.make_spec(p, sem[p["name"]], sc, name="%s#%d" % (p["name"], k))
+            if k % 2 == 1:
+                # split jobs publish their chunk definitions one step before they finish
+                s["early_defs"] = True
             if extra_spec:
                 s.update(extra_spec)
             specs.append(s)
